@@ -493,7 +493,15 @@ impl<'a> B<'a> {
     fn uint(&mut self, name: &str, w: usize) -> u64 {
         let st = self.pos;
         let v = self.raw(w);
-        self.push(name, st, w, Hint::Plain, vec![(Prop::C04, Pat::Int(v as i128))]);
+        // 30-bit fields are MMSIs: the station classes of ITU-R M.585 are the values at which a
+        // decoder is most tempted to special-case something (SART 970, MOB 972, EPIRB 974, SAR aircraft
+        // 111, aids 99, craft associated 98, coast stations 00, group 0)
+        let hint = if w == 30 {
+            Hint::Sentinels(vec![970_010_000, 972_000_001, 974_123_456, 111_232_001, 992_351_000, 981_234_567, 2_320_001, 23_200_001, 999_999_999, (1 << 30) - 1])
+        } else {
+            Hint::Plain
+        };
+        self.push(name, st, w, hint, vec![(Prop::C04, Pat::Int(v as i128))]);
         v
     }
     fn uint_owned(&mut self, name: &str, w: usize, owners: &[Prop]) -> u64 {
